@@ -505,6 +505,27 @@ def _stored_attrs(fn: ast.AST) -> Set[str]:
     return out
 
 
+def _pure_literal(e: ast.AST) -> bool:
+    """A list / tuple / set / dict display whose elements are names, attribute chains, constants, subscripts of
+    those, or calls of total built-ins on those (`type(None)`, `Optional[str]`)."""
+    def elem(x):
+        if _alias_expr(x):
+            return True
+        if isinstance(x, ast.Subscript):
+            return elem(x.value) and (elem(x.slice) or isinstance(x.slice, ast.Tuple) and all(elem(y) for y in x.slice.elts))
+        if isinstance(x, ast.Call):
+            return isinstance(x.func, ast.Name) and x.func.id in PURE_BUILTINS and not x.keywords and all(elem(a) for a in x.args)
+        if isinstance(x, (ast.List, ast.Tuple, ast.Set)):
+            return all(elem(y) for y in x.elts)
+        return False
+
+    if isinstance(e, (ast.List, ast.Tuple, ast.Set)):
+        return bool(e.elts) and all(elem(x) for x in e.elts)
+    if isinstance(e, ast.Dict):
+        return bool(e.keys) and all(k is not None and elem(k) for k in e.keys) and all(elem(v) for v in e.values)
+    return False
+
+
 class _Subst(ast.NodeTransformer):
     def __init__(self, name: str, value: ast.expr):
         self.name, self.value, self.n = name, value, 0
@@ -545,6 +566,16 @@ def propagate_temporaries(fn: ast.AST, keep: Set[str]) -> int:
                             for other in _all_stmts_after(fn, st):
                                 s.visit(other)
                             if s.n == total:
+                                del blk[i]
+                                changed += 1
+                                did = True
+                                continue
+                        # (c) a literal table of stable names, used once: where it is built does not matter
+                        elif total == 1 and _pure_literal(val) and all(cnt.get(x, 0) <= 1 for x in _names(val)) and _dominates(fn, blk, i, nm) and not (_attrs(val) & _stored_attrs(fn)):
+                            s = _Subst(nm, val)
+                            for other in _all_stmts_after(fn, st):
+                                s.visit(other)
+                            if s.n == 1:
                                 del blk[i]
                                 changed += 1
                                 did = True
@@ -1036,6 +1067,16 @@ def canonicalise(tree: ast.Module, ref_funcs: Optional[Set[str]], ref_consts: Op
                 continue
             helpers[q if cls else fn.name] = (fn, is_method)
         if helpers:
+            # helpers are themselves brought into full canonical form first (temporaries, comprehensions):
+            # `t = [..]; return all(x in t ..)` is then a single expression and can be inlined into a test
+            for _name, (hdef, _m) in helpers.items():
+                hp = {a.arg for a in ast.walk(hdef.args) if isinstance(a, ast.arg)}
+                for _k in range(3):
+                    a_ = _loops_to_comprehensions(hdef)
+                    b_ = propagate_temporaries(hdef, keep=hp)
+                    if not (a_ or b_):
+                        break
+                    hdef.body = canon.function_body(hdef.body)
             for q, cls, fn, _c in funcs:
                 if ".<locals>." in q:
                     continue
